@@ -32,9 +32,9 @@ theorem x2_step (r : Routine) (k b : Nat) (hs : Slice r k (ladX2Code b))
     (hrk : rk.length = 32) (hrkb : ∀ x ∈ rk, x < 2 ^ 32) (hjb : jb.length = 16) (hjbb : ∀ x ∈ jb, x < 2 ^ 8) (hsb : ∀ x ∈ src, x < 2 ^ 8)
     (hsp : sp + src.length < 2 ^ 63) (hdb : dbase + dlen < 2 ^ 63) (hsl : src.length ≤ dlen)
     (toff h hf c y : Nat) (dc tc : List Nat) (s : State) (hhf : hf < 2 ^ 63)
-    (st : LadSt M2 dbase dlen tp sp toff (Wblk jb 0) h hf src.length 1 c y dc tc s) (hlen : 16 * c + 32 ≤ src.length) :
+    (st : LadSt M2 dbase dlen tp sp toff (Wblk jb 0) h hf src 1 c y dc tc s) (hlen : 16 * c + 32 ≤ src.length) :
     ∃ s' N, N ≤ 700 ∧ Reach r k s k s' N ∧
-      LadSt M2 dbase dlen tp sp toff (Wblk jb 0) h hf src.length 1 (c + 2)
+      LadSt M2 dbase dlen tp sp toff (Wblk jb 0) h hf src 1 (c + 2)
         (if hf = 0 then y else ghN h 2 y (xorN ((src.drop (16 * c)).take 32) (ksN rk jb c 2)))
         (spliceAt dc (16 * c) (xorN ((src.drop (16 * c)).take 32) (ksN rk jb c 2))) tc s' ∧
       KeepsM ladKeepG ladKeepV (List.range 8) s s' := by
@@ -57,7 +57,7 @@ theorem x2_step (r : Routine) (k b : Nat) (hs : Slice r k (ladX2Code b))
   have k0 : KeepsM (List.range 16) (List.range 32) (List.range 8) s s0 := keepsM_setFlags _ _ _ s _
   have pc0 : PCtx s0 := st.pc.of_keepsM k0 (by decide)
   obtain ⟨s1, hr1, m1, reg9, reg8, ctr1, g15, k1⟩ := x2A_spec s0 pc0 rk jb src hrk hrkb hjb hjbb hsb (fun d => M2 d tc) dbase dlen sp
-    (lm.m2.bufD tc st.htc) (fun d hd => lm.src d tc hd st.htc) (fun d i hd hi => lm.rk d tc i hd st.htc hi) dc st.hdc st.mem c
+    (lm.m2.bufD tc st.htc) (fun d i hd hi => lm.rk d tc i hd st.htc hi) dc st.hdc st.mem c (st.srcOK tc st.htc)
     (st.ctr 0 (by decide)) st.rkp st.g10 st.g13 hlen (by omega) hsp hdb
   have r1 : Reach r (k + 2) s0 (k + 2 + 540) s1 540 := by
     have := reach_seg sA x2A_nc hr1; rw [x2A_len] at this; exact this
@@ -118,7 +118,7 @@ theorem x2_step (r : Routine) (k b : Nat) (hs : Slice r k (ladX2Code b))
   have hm4 : s4.mem = M2 (spliceAt dc (16 * c) (xorN ((src.drop (16 * c)).take 32) (ksN rk jb c 2))) tc := by
     rw [k4.mem, m3]; exact m1
   refine ⟨st.pc.of_keepsM kA pRegs_lad, st.gh.of_keepsM kA ghRegs_lad, (kA.g 15 (by decide)).trans st.rkp, (kA.g 0 (by decide)).trans st.g0,
-    ?_, ?_, ?_, (kA.g 6 (by decide)).trans st.g6, ?_, ?_, ?_, hm4, ?_, st.htc⟩
+    ?_, ?_, ?_, (kA.g 6 (by decide)).trans st.g6, ?_, ?_, ?_, hm4, ?_, st.htc, ?_⟩
   · rw [g9]; omega
   · rw [g10]; omega
   · rw [g13]; omega
@@ -129,6 +129,9 @@ theorem x2_step (r : Routine) (k b : Nat) (hs : Slice r k (ladX2Code b))
   · rw [k4.v 21 (by decide)]; exact y3
   · rw [← y3]; exact lt3
   · rw [spliceAt_length _ _ _ (by rw [xorN_length, ksN_length, List.length_take, List.length_drop, st.hdc]; omega)]; exact st.hdc
+  · intro t ht
+    exact (lm.adv dc t (16 * c) 32 _ st.hdc ht (by rw [xorN_length, ksN_length, List.length_take, List.length_drop]; omega) (by omega)
+      (st.srcOK t ht)).mono _ (by omega)
 
 theorem x1_eq (b : Nat) : ladX1Code b =
     [ins .CMPQ [G 9, .imm 16] 0, ins .JLT [.target (b + 18937)] 0] ++ (x1ACode ++
@@ -158,9 +161,9 @@ theorem x1_step (r : Routine) (k b : Nat) (hs : Slice r k (ladX1Code b))
     (hrk : rk.length = 32) (hrkb : ∀ x ∈ rk, x < 2 ^ 32) (hjb : jb.length = 16) (hjbb : ∀ x ∈ jb, x < 2 ^ 8) (hsb : ∀ x ∈ src, x < 2 ^ 8)
     (hsp : sp + src.length < 2 ^ 63) (hdb : dbase + dlen < 2 ^ 63) (hsl : src.length ≤ dlen)
     (toff h hf c y : Nat) (dc tc : List Nat) (s : State) (hhf : hf < 2 ^ 63)
-    (st : LadSt M2 dbase dlen tp sp toff (Wblk jb 0) h hf src.length 1 c y dc tc s) (hlen : 16 * c + 16 ≤ src.length) :
+    (st : LadSt M2 dbase dlen tp sp toff (Wblk jb 0) h hf src 1 c y dc tc s) (hlen : 16 * c + 16 ≤ src.length) :
     ∃ s' N, N ≤ 700 ∧ Reach r k s k s' N ∧
-      LadSt M2 dbase dlen tp sp toff (Wblk jb 0) h hf src.length 1 (c + 1)
+      LadSt M2 dbase dlen tp sp toff (Wblk jb 0) h hf src 1 (c + 1)
         (if hf = 0 then y else ghN h 1 y (xorN ((src.drop (16 * c)).take 16) (ksN rk jb c 1)))
         (spliceAt dc (16 * c) (xorN ((src.drop (16 * c)).take 16) (ksN rk jb c 1))) tc s' ∧
       KeepsM ladKeepG ladKeepV (List.range 8) s s' := by
@@ -183,7 +186,7 @@ theorem x1_step (r : Routine) (k b : Nat) (hs : Slice r k (ladX1Code b))
   have k0 : KeepsM (List.range 16) (List.range 32) (List.range 8) s s0 := keepsM_setFlags _ _ _ s _
   have pc0 : PCtx s0 := st.pc.of_keepsM k0 (by decide)
   obtain ⟨s1, hr1, m1, reg9, ctr1, g15, k1⟩ := x1A_spec s0 pc0 rk jb src hrk hrkb hjb hjbb hsb (fun d => M2 d tc) dbase dlen sp
-    (lm.m2.bufD tc st.htc) (fun d hd => lm.src d tc hd st.htc) (fun d i hd hi => lm.rk d tc i hd st.htc hi) dc st.hdc st.mem c
+    (lm.m2.bufD tc st.htc) (fun d i hd hi => lm.rk d tc i hd st.htc hi) dc st.hdc st.mem c (st.srcOK tc st.htc)
     (st.ctr 0 (by decide)) st.rkp st.g10 st.g13 hlen (by omega) hsp hdb
   have r1 : Reach r (k + 2) s0 (k + 2 + 534) s1 534 := by
     have := reach_seg sA x1A_nc hr1; rw [x1A_len] at this; exact this
@@ -238,7 +241,7 @@ theorem x1_step (r : Routine) (k b : Nat) (hs : Slice r k (ladX1Code b))
   have hm4 : s4.mem = M2 (spliceAt dc (16 * c) (xorN ((src.drop (16 * c)).take 16) (ksN rk jb c 1))) tc := by
     rw [k4.mem, m3]; exact m1
   refine ⟨st.pc.of_keepsM kA pRegs_lad, st.gh.of_keepsM kA ghRegs_lad, (kA.g 15 (by decide)).trans st.rkp, (kA.g 0 (by decide)).trans st.g0,
-    ?_, ?_, ?_, (kA.g 6 (by decide)).trans st.g6, ?_, ?_, ?_, hm4, ?_, st.htc⟩
+    ?_, ?_, ?_, (kA.g 6 (by decide)).trans st.g6, ?_, ?_, ?_, hm4, ?_, st.htc, ?_⟩
   · rw [g9]; omega
   · rw [g10]; omega
   · rw [g13]; omega
@@ -249,5 +252,8 @@ theorem x1_step (r : Routine) (k b : Nat) (hs : Slice r k (ladX1Code b))
   · rw [k4.v 21 (by decide)]; exact y3
   · rw [← y3]; exact lt3
   · rw [spliceAt_length _ _ _ (by rw [xorN_length, ksN_length, List.length_take, List.length_drop, st.hdc]; omega)]; exact st.hdc
+  · intro t ht
+    exact (lm.adv dc t (16 * c) 16 _ st.hdc ht (by rw [xorN_length, ksN_length, List.length_take, List.length_drop]; omega) (by omega)
+      (st.srcOK t ht)).mono _ (by omega)
 
 end SMGo.Proofs.ISAVal
